@@ -293,10 +293,12 @@ impl IntoSqlBuilder for Member {
                 MemberPrime::Call { call } => {
                     builder = Box::new(FunctionCallBuilder {
                         primary: builder,
+                        // the parser stores the arguments last to first
                         args: call
                             .node()
                             .exprs
                             .iter()
+                            .rev()
                             .map(|a| a.node().into_sql_builder())
                             .collect::<ToSqlResult<Vec<_>>>()?,
                     });
